@@ -107,7 +107,7 @@ def make_planes(rng, n, with_pos):
     """n aircraft; with_pos[i] says whether a position pair is sent; returns (sorted icaos, lines, det bits in row order, flights)"""
     flights = []
     for i in range(n):
-        f = gentrack.Flight(rng, 0xA10000 + 0x1111 * i + rng.below(0x100), RX)
+        f = gentrack.Flight(rng, 0xA10000 + 0x1111 * i + rng.below(0x100), RX, plain=True)
         f.lat = Fr(RX[0]) + Fr(rng.below(1000) - 500, 1000); f.lon = Fr(RX[1]) + Fr(rng.below(1000) - 500, 1000)
         flights.append(f)
     lines = []
@@ -262,7 +262,7 @@ def check_coverage(rng, tier, report):
         sub = Rng(rng.next())
         flights = []
         for i in range(n):
-            f = gentrack.Flight(sub, 0xA20000 + 0x101 * i, RX); f.lat = Fr(RX[0]) + Fr(1, 10); f.lon = Fr(RX[1]) + Fr(1, 10); flights.append(f)
+            f = gentrack.Flight(sub, 0xA20000 + 0x101 * i, RX, plain=True); f.lat = Fr(RX[0]) + Fr(1, 10); f.lon = Fr(RX[1]) + Fr(1, 10); flights.append(f)
         script = []
         for rep in range(reps):
             for f in flights:
